@@ -206,21 +206,28 @@ def translate_model(model, entry=None, safety=False, keep=False):
                 pass
 
 
-def eval_formulas(base_sheets, formulas, sheet='S', first_col=27, ncols=8, overrides=None, mode='whole'):
+def eval_formulas(base_sheets, formulas, sheet='S', first_col=27, ncols=8, overrides=None, mode='whole', on=None):
     """Evaluate many formulas placed in a dense block of `sheet` (columns first_col..), one workbook.
 
     Returns list of outcome tuples, one per formula.  On a whole-file translation
     failure every formula is re-run alone through entry-point translation so that
     one bad formula cannot hide the others.  `overrides`: list of (title,col,row,value)."""
     model = {'sheets': [dict(title=s['title'], cells=dict(s['cells'])) for s in base_sheets]}
-    target = next(s for s in model['sheets'] if s['title'] == sheet)
+    # on[i]: title of the sheet that holds formula i (default: `sheet`); every sheet has its own dense block
+    by_title = {s['title']: s for s in model['sheets']}
     addrs = []
+    homes = []
+    counters = {}
     for i, f in enumerate(formulas):
-        addr = a1(first_col + i % ncols, 1 + i // ncols)
-        if addr in target['cells']:
-            raise env.HarnessError(f'formula block overlaps data at {addr}')
-        target['cells'][addr] = f
+        home = on[i] if on is not None and on[i] is not None else sheet
+        k = counters.get(home, 0)
+        counters[home] = k + 1
+        addr = a1(first_col + k % ncols, 1 + k // ncols)
+        if addr in by_title[home]['cells']:
+            raise env.HarnessError(f'formula block overlaps data at {home}!{addr}')
+        by_title[home]['cells'][addr] = f
         addrs.append(addr)
+        homes.append(home)
     path = write_xlsx(model)
     try:
         def whole():
@@ -233,13 +240,13 @@ def eval_formulas(base_sheets, formulas, sheet='S', first_col=27, ncols=8, overr
             ex = tr.executor()
             if overrides:
                 ex.set_cells([Cell(t, c, r, dec(v)) for t, c, r, v in overrides])
-            for addr in addrs:
+            for addr, home in zip(addrs, homes):
                 c, r = split_a1(addr)
-                res.append(tr.get(sheet, get_column_letter(c), str(r), ex))
+                res.append(tr.get(home, get_column_letter(c), str(r), ex))
             return res
-        for addr in addrs:
+        for addr, home in zip(addrs, homes):
             c, r = split_a1(addr)
-            ent = (sheet, get_column_letter(c), str(r))
+            ent = (home, get_column_letter(c), str(r))
 
             def one():
                 src = translate_path(path, entry=ent)
